@@ -334,14 +334,13 @@ def lookupTagEntry (C : Ctx) (r : Req) (e : Str) : Outcome :=
   | none => .skip
 
 /-- an ordinary tag entry: a registered global tag other than `latest` that none of the earlier
-branches of the loop body intercepts (a tag named `t` or `pat` would be: `vroTag in ("path")`) -/
+branches of the loop body intercepts -/
 def isPlainTag (C : Ctx) (e : Str) : Bool :=
-  C.globalTags.contains e && e != kLatest && !pseudoTags.contains e && !hasInfix e kPath &&
-    !isWarn e && !e.contains colon
+  C.globalTags.contains e && e != kLatest && !pseudoTags.contains e && !isWarn e && !e.contains colon
 
 /-- The body of the `for i, vroTag in enumerate(vro)` loop for one entry; `post = vro[i+1:]`. -/
 def lookupEntry (C : Ctx) (r : Req) (e : Str) (post : List Str) : Except Err Outcome :=
-  if hasInfix e kPath then .ok .skip                  -- `vroTag in ("path")`: a substring test
+  if e == kPath then .ok .skip                        -- `vroTag in ("path",)` (a substring test before fix dce50ce, D33)
   else if 0 < r.depth && e == kKeep then
     match r.already with
     | some (p, _) => .ok (.hit p kKeep)
